@@ -122,6 +122,9 @@ def check_parse(style, text, options, parent_kind, timeout_s=5):
         PARENTS = parents()
     parent = PARENTS[parent_kind]
     doc = Docstring(text, parent=parent, lineno=3)
+    ls = doc.lines
+    if not (len(ls) >= 1 and (len(ls) == 1 or ls[-1].strip()) and "\n".join(ls) == doc.value):
+        return "Docstring invariant violated: lines are not the newline-separated pieces of the value, or the last line is blank"
     value0, snap0 = doc.value, snapshot(parent)
     signal.signal(signal.SIGALRM, _alarm)
     signal.setitimer(signal.ITIMER_REAL, timeout_s)
@@ -167,7 +170,8 @@ def plain_text_problem(style, text, options, parent_kind):
     return None
 
 
-PLAIN = ["Summary.", "", "Some text, with words", "  indented prose", "a - b", "x = 1", "    more indented prose", "Trailing words"]
+PLAIN = ["Summary.", "", "Some text, with words", "  indented prose", "a - b", "x = 1", "    more indented prose", "Trailing words",
+         "form\x0cfeed", "carriage\rreturn", "line\u2028separator", "unit\x1fseparator\x1c."]
 
 
 def option_valuations(style, thorough=False):
@@ -238,12 +242,25 @@ def replay_parsers(witness, obligation, expects):
     parts = (obligation or "").split(".")
     style = parts[1] if len(parts) > 1 and parts[1] in LINES else None
     fname = parts[2] if len(parts) > 2 else None
-    if style is None and len(parts) > 1 and parts[1] == "utils":
+    if style is None and len(parts) > 1 and parts[1] in ("utils", "parsers"):
         style, fname = "google", "parse_google"
+    if style is None and len(parts) > 1 and parts[1] == "models":
+        style, fname = "google", "lines"
     if style is None:
         return {"reproduced": False, "detail": "no native search for this obligation"}
     want = (expects or {}).get("exc")
     t0, budget = time.time(), 100
+    if len(parts) > 1 and parts[1] == "models":
+        # Docstring.lines / Docstring.__init__: the statement's observable is the plain-text clause
+        for n in range(1, 4):
+            for combo in itertools.product(PLAIN, repeat=n):
+                if not combo[0].strip() or not combo[-1].strip():
+                    continue
+                for st in ("google", "numpy", "sphinx"):
+                    f = plain_text_problem(st, "\n".join(combo), {}, "none") or check_parse(st, "\n".join(combo), {}, "none")
+                    if f:
+                        return {"reproduced": True, "detail": f"{st} parser: {f}", "input": {"style": st, "text": "\n".join(combo)}, "signature": f"{st}:lines"}
+        return {"reproduced": False, "detail": "no failing plain-text docstring found"}
     top = fname in ("parse_google", "parse_numpy", "parse_sphinx") or not hasattr(MODS[style], fname or "")
     is_reader = not top and (fname.startswith("_read_block") or fname in ("_consolidate_continuation_lines", "_parse_directive") or style == "sphinx")
     tried = 0
